@@ -1,32 +1,55 @@
 #!/bin/bash
 # Runs the registered quick check of the property against every confirmed seeded change, each applied to a scratch
-# worktree of /repo's HEAD (HV_REPO/HV_OUT: /repo and evidence/ are not touched). Writes seeded/RESULTS.txt
-# (with an argument: only the changes whose name starts with it; RESULTS.txt is then updated in place).
+# worktree of /repo's HEAD (HV_REPO/HV_OUT: /repo and evidence/ are not touched), JOBS (default 3) changes at a time.
+# Writes seeded/RESULTS.txt (with an argument: only the changes whose name starts with it; RESULTS.txt is then
+# updated in place).
 cd /verif
 export GOFLAGS=-mod=mod GOPROXY=off GOSUMDB=off GOTOOLCHAIN=local
-wt=$(mktemp -d /tmp/seedwt.XXXX); rmdir $wt
-git -C /repo worktree add --detach $wt HEAD >/dev/null 2>&1 || exit 2
+jobs=${JOBS:-3}
 # snapshot of the machinery (engine binary, contracts, lock files, known findings): the run is not disturbed by work
 # going on in /verif meanwhile
 snap=$(mktemp -d /tmp/vsnap.XXXX); mkdir -p $snap/bin; cp bin/hv $snap/bin/; cp -r contracts check obligations.lock.json locals.lock.json known_findings.json MANIFEST.json $snap/
-od=$(mktemp -d /tmp/seedout.XXXX)
-trap 'git -C /repo worktree remove --force '$wt' >/dev/null 2>&1; rm -rf '$od' '$snap EXIT
-out=seeded/RESULTS.txt; [ -n "${1:-}" ] || : > $out
+res=$(mktemp -d /tmp/seedres.XXXX)
+wts=""
+cleanup() { for w in $wts; do git -C /repo worktree remove --force $w >/dev/null 2>&1; rm -rf $w.out; done; rm -rf $snap $res; }
+trap cleanup EXIT
+names=""
 for d in seeded/C*/; do
-  n=$(basename $d); id=${n%%-*}
+  n=$(basename $d)
   [ -f $d/patch.diff ] || continue
   if [ -n "${1:-}" ] && [[ "$n" != $1* ]]; then continue; fi
-  git -C $wt checkout -q -- . ; git -C $wt clean -fdq
-  if ! git -C $wt apply /verif/$d/patch.diff; then line="$n: patch does not apply"; else
-    res=$(HV_REPO=$wt HV_OUT=$od $snap/check $id quick 2>&1)
-    if echo "$res" | grep -q "^VIOLATION property=$id"; then
-      obs=$(echo "$res" | grep "^  obligation" | sed 's/^  obligation //' | cut -d' ' -f1-2 | tr '\n' ';' | cut -c1-400)
-      rep=""; echo "$res" | grep "^VIOLATION" | grep -qv "no-failing-input-found" && rep=" REPLAYED"
-      line="$n: DETECTED$rep $obs"
-    else
-      line="$n: MISSED ($(echo "$res" | tail -1))"
-    fi
-  fi
-  echo "$line"
-  if [ -n "${1:-}" ]; then grep -v "^$n:" $out > $out.tmp; echo "$line" >> $out.tmp; sort $out.tmp > $out; rm $out.tmp; else echo "$line" >> $out; fi
+  names="$names $n"
 done
+worker() { # $1 = worker index
+  local wt=$2 k=0
+  for n in $names; do
+    k=$((k+1)); [ $((k % jobs)) -eq $1 ] || continue
+    local id=${n%%-*} line
+    git -C $wt checkout -q -- . ; git -C $wt clean -fdq
+    if ! git -C $wt apply /verif/seeded/$n/patch.diff 2>/dev/null; then line="$n: patch does not apply"; else
+      local r=$(HV_REPO=$wt HV_OUT=$wt.out $snap/check $id quick 2>&1)
+      if echo "$r" | grep -q "^VIOLATION property=$id"; then
+        local obs=$(echo "$r" | grep "^  obligation" | sed 's/^  obligation //' | cut -d' ' -f1-2 | tr '\n' ';' | cut -c1-400)
+        local rep=""; echo "$r" | grep "^VIOLATION" | grep -qv "no-failing-input-found" && rep=" REPLAYED"
+        line="$n: DETECTED$rep $obs"
+      else
+        line="$n: MISSED ($(echo "$r" | tail -1))"
+      fi
+    fi
+    echo "$line"; echo "$line" > $res/$n
+  done
+}
+for i in $(seq 0 $((jobs-1))); do
+  wt=$(mktemp -d /tmp/seedwt.XXXX); rmdir $wt
+  git -C /repo worktree add --detach $wt HEAD >/dev/null 2>&1 || exit 2
+  mkdir -p $wt.out; wts="$wts $wt"
+  worker $i $wt &
+done
+wait
+out=seeded/RESULTS.txt
+if [ -n "${1:-}" ]; then
+  for n in $names; do grep -v "^$n:" $out > $out.tmp; mv $out.tmp $out; done
+  cat $res/* $out 2>/dev/null | sort > $out.tmp; mv $out.tmp $out
+else
+  cat $res/* | sort > $out
+fi
